@@ -234,12 +234,27 @@ func genMutator(depth int) *rapid.Generator[*ast.Node] {
 		ident := ast.LambdaN([]string{"v"}, "", ast.VarN("v"))
 		upd := ast.N(ast.Obj, ast.StrN(rapid.SampledFrom([]string{"z", "a", "b"}).Draw(t, "uk")), rapid.SampledFrom([]*ast.Node{ast.NumN(1), ast.VarN(""), ast.VarN("$"), ast.NameN("a"), ast.ArrN(ast.NumN(1), ast.NumN(2))}).Draw(t, "uv"))
 		del := rapid.SampledFrom([]*ast.Node{nil, ast.StrN("a"), ast.ArrN(ast.StrN("a"), ast.StrN("b")), ast.NumN(1)}).Draw(t, "del")
-		pattern := rapid.SampledFrom([]*ast.Node{ast.VarN(""), ast.N(ast.Desc), ast.N(ast.Wild), ast.VarN("$"), ast.VarN("rv"), ast.NameN("a"), ast.PathN(ast.VarN("$"), ast.NameN("a")), ast.PathN(ast.NameN("a"), ast.NameN("b"))}).Draw(t, "pattern")
+		pattern := rapid.SampledFrom([]*ast.Node{ast.VarN(""), ast.N(ast.Desc), ast.N(ast.Wild), ast.VarN("$"), ast.VarN("rv"), ast.NameN("a"), ast.PathN(ast.VarN("$"), ast.NameN("a")), ast.PathN(ast.NameN("a"), ast.NameN("b")),
+			// a pattern that starts inside the copy and then reaches back into the caller's data
+			ast.PathN(ast.NameN("a"), ast.VarN("$"), ast.NameN("b")), ast.PathN(ast.N(ast.Wild), ast.VarN("$")), ast.PathN(ast.NameN("a"), ast.VarN("rv")), ast.PathN(ast.VarN(""), ast.BlockN(ast.VarN("$"))), ast.PathN(ast.NameN("b"), ast.VarN("$"), ast.NameN("a"))}).Draw(t, "pattern")
 		tr := &ast.Node{K: ast.Transform, C: []*ast.Node{pattern, upd}}
 		if del != nil {
 			tr.C = append(tr.C, del)
 		}
-		switch rapid.IntRange(0, 27).Draw(t, "mutator") {
+		switch rapid.IntRange(0, 31).Draw(t, "mutator") {
+		case 28, 29, 30: // a composed function with the transform in a later stage: the earlier stage hands the caller's own objects on
+			first := rapid.SampledFrom([]*ast.Node{ast.VarN("reverse"), ast.VarN("distinct"), ident,
+				&ast.Node{K: ast.Partial, C: []*ast.Node{ast.VarN("append"), ast.N(ast.Hole), ast.ArrN()}},
+				&ast.Node{K: ast.Partial, C: []*ast.Node{ast.VarN("filter"), ast.N(ast.Hole), ast.LambdaN([]string{"v"}, "", ast.BoolN(true))}},
+				ast.LambdaN([]string{"v"}, "", ast.PredN(ast.VarN("v"), ast.NumN(0)))}).Draw(t, "stage1")
+			if first.K == ast.Lambda {
+				first = ast.BlockN(first)
+			}
+			comp := ast.BlockN(ast.N(ast.Chain, first, tr))
+			if rapid.Bool().Draw(t, "viaVar") {
+				return ast.BlockN(&ast.Node{K: ast.Assign, S: "mark", C: []*ast.Node{comp}}, ast.CallE(ast.VarN("mark"), x))
+			}
+			return ast.N(ast.Chain, x, comp)
 		case 0:
 			return ast.CallN("sort", x)
 		case 1:
@@ -302,7 +317,7 @@ func c07Docs() *rapid.Generator[val.Value] {
 		// documents on which the candidate mutators succeed: unsorted homogeneous
 		// arrays (an in-place $sort/$reverse/$shuffle is only visible on those)
 		rapid.Custom(func(t *rapid.T) val.Value {
-			pool := []string{`[3,1,2]`, `[2,1]`, `["b","a","c"]`, `[{"a":2,"k":"y"},{"a":1,"k":"x"}]`, `{"a":[3,1,2],"b":["z","y"]}`, `[[2,1],[3]]`, `[5,4,3,2,1,0]`, `["b","a"]`, `{"b":{"a":[9,8]}}`, `7`, `"s"`}
+			pool := []string{`[1,1,2,3,2,4]`, `["a","a","b","c","b","d"]`, `[{"k":1},{"k":1},{"k":2},[],[],7]`, `[3,1,2]`, `[2,1]`, `["b","a","c"]`, `[{"a":2,"k":"y"},{"a":1,"k":"x"}]`, `{"a":[3,1,2],"b":["z","y"]}`, `[[2,1],[3]]`, `[5,4,3,2,1,0]`, `["b","a"]`, `{"b":{"a":[9,8]}}`, `7`, `"s"`}
 			m := map[string]val.Value{}
 			for _, n := range c07Names {
 				if rapid.IntRange(0, 3).Draw(t, "has") != 0 {
